@@ -398,6 +398,21 @@ def c07_d(ctx: Ctx):
     if stripped:
         out.append(ctx.viol(R, ps, stripped[0], f"the /regex/ token is unwrapped with `{canon(stripped[0])}`, which removes every leading and trailing '/', not just the two delimiters: "
                             "`signac find path //scratch/` searches for 'scratch' and selects more jobs than {'path': {'$regex': '/scratch'}}", construct=ps.qual + "|regex-delimiters"))
+    # a value token is handed to a JSON decoder only if it looks like a JSON object / array; every other token is a typed scalar as written
+    valp = ps.params[1] if len(ps.params) > 1 else "value"
+    dec = [c for c in body_nodes(ps) if isinstance(c, ast.Call) and (common.ext_name(ctx, ps, c) in ("json.loads",) or any(t.endswith(":_parse_json") for t in common.targets_of(ctx, ps, c)))
+           and c.args and valp in names_in(c.args[0])]
+    ungated = []
+    for c in dec:
+        facts = common.expand_facts(ctx, ps, common.facts_at(ctx, ps, c, "n"))
+        if not any(pol and t.replace(" ", "") == f"_is_json_like({valp})" for (t, pol) in facts):
+            ungated.append(c)
+    if ungated:
+        out.append(ctx.viol(R, ps, ungated[0], f"`{canon(ungated[0])[:50]}` decodes every value token that happens to be valid JSON, not only those that look like an object / array: a value "
+                            "written with its own double quotes ('\"abc\"', '\"7\"') loses them and selects other jobs than the mapping spelling of the same filter, and a malformed "
+                            "JSON-like token is silently compared as a string instead of being reported", construct=ps.qual + "|json-only-if-json-like"))
+    if stripped:
+        pass
     elif not miss:
         out.append(ctx.ok(R, ps, ps.node, "token forms: key alone -> $exists, /re/ -> $regex, JSON text -> parsed JSON, anything else -> typed scalar"))
     else:
@@ -441,4 +456,35 @@ def c07_f(ctx: Ctx):
     return res
 
 
-RULES = [c07_a, c07_b, c07_c, c07_d, c07_e, c07_f]
+@rule("C07-g")
+def c07_g(ctx: Ctx):
+    """What cursor[i:j] (and iter(cursor)) hands out describes the selected ids every time it is looked at: iterating it starts over from the stored
+    id list; it is not a one-shot stream that a second pass (count, then process) finds exhausted."""
+    R = "C07-g"
+    out = []
+    ci = ctx.prog.classes.get("signac.project:_JobsCursorIterator")
+    k = "signac.project:_JobsCursorIterator|re-iterable"
+    if ci is None:
+        return [ctx.inc(R, None, None, "_JobsCursorIterator not found", construct=k)]
+    it = ci.methods.get("__iter__")
+    nx = ci.methods.get("__next__")
+    if it is None or nx is None:
+        return [ctx.inc(R, None, None, "_JobsCursorIterator lacks __iter__ / __next__", construct=k)]
+    rets = [r for r in body_nodes(it) if isinstance(r, ast.Return) and r.value is not None]
+    consumes = any(isinstance(c, ast.Call) and isinstance(c.func, ast.Name) and c.func.id == "next" and c.args and canon(c.args[0]).startswith("self.") for c in body_nodes(nx))
+    returned_by_getitem = any(isinstance(c, ast.Call) and canon(c.func).endswith("_JobsCursorIterator") for q in (CUR + ".__getitem__", CUR + ".__iter__")
+                              for c in body_nodes(ctx.fn(q)))
+    selfret = [r for r in rets if canon(r.value) == "self"]
+    if selfret and consumes and returned_by_getitem:
+        out.append(ctx.viol(R, it, selfret[0], "__iter__ returns the iterator itself while __next__ consumes one stored iterator: the object that cursor[i:j] / iter(cursor) returns is a "
+                            "one-shot stream - a second pass over the same slice yields nothing, so the slice no longer agrees with the cursor's id list", construct=k))
+    elif rets and all(isinstance(r.value, ast.Call) for r in rets):
+        out.append(ctx.ok(R, it, rets[0], "every iteration starts a new pass over the stored id list", construct=k))
+    elif not consumes:
+        out.append(ctx.ok(R, it, it.node, "__next__ does not consume a stored one-shot iterator", construct=k, nontrivial=False))
+    else:
+        out.append(ctx.inc(R, it, it.node, "__iter__ of _JobsCursorIterator not recognised", construct=k))
+    return out
+
+
+RULES = [c07_a, c07_b, c07_c, c07_d, c07_e, c07_f, c07_g]
